@@ -43,22 +43,43 @@ type Prog struct {
 type Workspace struct {
 	Root  string
 	CLI   string
+	Wire  string // google/wire CLI (wire workspaces only)
 	Progs []*Prog
 	mu    sync.Mutex
 }
 
-func NewWorkspace(scratch, cli string) *Workspace {
+func NewWorkspace(scratch, cli string) *Workspace { return newWorkspace(scratch, cli, false) }
+
+// NewWireWorkspace also requires google/wire and builds its CLI (bin/wire).
+func NewWireWorkspace(scratch, cli string) *Workspace { return newWorkspace(scratch, cli, true) }
+
+func newWorkspace(scratch, cli string, wire bool) *Workspace {
 	w := &Workspace{Root: filepath.Join(scratch, "vk"), CLI: cli}
 	os.MkdirAll(w.Root, 0o755)
-	gomod := fmt.Sprintf("module %s\n\ngo 1.24.0\n\nrequire (\n\tgithub.com/mazrean/kessoku v0.0.0\n\tgolang.org/x/sync v0.19.0\n)\n\nreplace github.com/mazrean/kessoku => %s\n", spec.ModulePath, base.RepoDir)
+	extra := ""
+	if wire {
+		extra = "\tgithub.com/google/wire v0.7.0\n\tgolang.org/x/tools v0.42.0\n"
+	}
+	gomod := fmt.Sprintf("module %s\n\ngo 1.24.0\n\nrequire (\n\tgithub.com/mazrean/kessoku v0.0.0\n\tgolang.org/x/sync v0.19.0\n%s)\n\nreplace github.com/mazrean/kessoku => %s\n", spec.ModulePath, extra, base.RepoDir)
 	base.WriteFile(filepath.Join(w.Root, "go.mod"), gomod)
 	sum, _ := os.ReadFile(filepath.Join(base.RepoDir, "go.sum"))
 	os.WriteFile(filepath.Join(w.Root, "go.sum"), sum, 0o644)
 	base.WriteFile(filepath.Join(w.Root, "probe", "probe.go"), probeSrc)
 	base.WriteFile(filepath.Join(w.Root, "warm", "warm.go"), "package warm\n\nimport (\n\t_ \"github.com/mazrean/kessoku\"\n\t_ \"golang.org/x/sync/errgroup\"\n\t_ \"vk/probe\"\n)\n")
+	if wire {
+		base.WriteFile(filepath.Join(w.Root, "warm", "wire.go"), "package warm\n\nimport _ \"github.com/google/wire\"\n")
+	}
 	r := base.Cmd{Dir: w.Root, Env: []string{"GOFLAGS=-mod=mod"}, Name: "go", Args: []string{"build", "./..."}}.Run()
 	if r.Exit != 0 {
 		base.Fatalf("scratch module does not build: %s", r.Stderr)
+	}
+	if wire {
+		w.Wire = filepath.Join(w.Root, "bin", "wire")
+		os.MkdirAll(filepath.Dir(w.Wire), 0o755)
+		r := base.Cmd{Dir: w.Root, Env: []string{"GOFLAGS=-mod=mod"}, Name: "go", Args: []string{"build", "-o", w.Wire, "github.com/google/wire/cmd/wire"}}.Run()
+		if r.Exit != 0 {
+			base.Fatalf("cannot build the wire CLI offline: %s", r.Stderr)
+		}
 	}
 	return w
 }
@@ -246,6 +267,34 @@ func (w *Workspace) BuildRunner(progs []*Prog, name string) (string, []*Prog, er
 		return "", nil, fmt.Errorf("runner build failed: %s", r.Stderr)
 	}
 	return bin, ok, nil
+}
+
+// BuildRunnerFor links a runner importing exactly the given program packages.
+func (w *Workspace) BuildRunnerFor(names []string, name string) (string, error) {
+	var b strings.Builder
+	b.WriteString("package main\n\nimport (\n\t\"vk/probe\"\n")
+	for _, n := range names {
+		fmt.Fprintf(&b, "\t_ \"vk/progs/%s\"\n", n)
+	}
+	b.WriteString(")\n\nfunc main() { probe.Main() }\n")
+	dir := filepath.Join(w.Root, "cmd", name)
+	base.WriteFile(filepath.Join(dir, "main.go"), b.String())
+	bin := filepath.Join(w.Root, "bin", name)
+	os.MkdirAll(filepath.Dir(bin), 0o755)
+	r := base.Cmd{Dir: w.Root, Name: "go", Args: []string{"build", "-race", "-o", bin, "./cmd/" + name}, Timeout: 30 * time.Minute}.Run()
+	if r.Exit != 0 {
+		return "", fmt.Errorf("runner build failed: %s", r.Stderr)
+	}
+	return bin, nil
+}
+
+// BuildNames compiles the named program packages; returns name -> errors.
+func (w *Workspace) BuildNames(names []string) map[string]string {
+	var ps []*Prog
+	for _, n := range names {
+		ps = append(ps, &Prog{Spec: &spec.Spec{Name: n}})
+	}
+	return w.buildPkgs(ps, false)
 }
 
 // SortedBandNames lists generated file names of a program.
